@@ -344,3 +344,35 @@ Definition waccepted (tr : list (wev * wobs)) : list Z :=
   flat_map (fun eo => match fst eo with WJob j _ => if wacc (snd eo) then [j] else [] | _ => [] end) tr.
 Definition wresults (tr : list (wev * wobs)) : list (Z * jerr) :=
   flat_map (fun eo => match wres (snd eo) with Some r => [r] | None => [] end) tr.
+
+(* ============================================ success means all answered
+   The full statement, in trace vocabulary only.  The dispatcher sees the
+   part of a trace up to the first Quit.  Batches are numbered in submission
+   order and their requests (jobs) consecutively: batch b owns the jobs
+   [first_job b, first_job b + size b).  [ok_count j tr] = how many successful
+   results (event Result j _ JOk) job j has in tr.
+   [all_answered tr b upto]: batch b of trace tr has requests, and every one
+   of them has exactly one successful result within the part [upto]. *)
+Fixpoint before_quit (tr : list (ev * obs)) : list (ev * obs) :=
+  match tr with
+  | [] => []
+  | (Quit, _) :: _ => []
+  | eo :: rest => eo :: before_quit rest
+  end.
+
+Definition sizes (tr : list (ev * obs)) : list nat :=
+  flat_map (fun eo => match fst eo with NewBatch n _ _ _ => [n] | _ => [] end) tr.
+Definition sum_nat (l : list nat) : nat := fold_right Nat.add 0%nat l.
+
+Definition requests_of (tr : list (ev * obs)) (b : Z) : list Z :=
+  if (0 <=? b) && (b <? Z.of_nat (length (sizes tr))) then
+    map (fun i => Z.of_nat (sum_nat (firstn (Z.to_nat b) (sizes tr))) + Z.of_nat i)
+        (seq 0 (nth (Z.to_nat b) (sizes tr) 0%nat))
+  else [].
+
+Definition is_ok_result (j : Z) (eo : ev * obs) : bool :=
+  match fst eo with Result j' _ JOk => j' =? j | _ => false end.
+Definition ok_count (j : Z) (tr : list (ev * obs)) : nat := length (filter (is_ok_result j) tr).
+
+Definition all_answered (tr : list (ev * obs)) (b : Z) (upto : list (ev * obs)) : Prop :=
+  requests_of tr b <> [] /\ forall j, In j (requests_of tr b) -> ok_count j upto = 1%nat.
